@@ -55,7 +55,7 @@ def _vec_cases(draw):
                 scalar_kind=draw(st.sampled_from(["py", "np", "0d", "int"])),
                 layout=draw(st.sampled_from(LAYOUTS)),
                 thr_dtype=draw(st.sampled_from([None, None, "float32", "float16"])),
-                readonly=draw(st.booleans()))
+                readonly=draw(st.booleans()), subclass=draw(st.sampled_from([False, False, False, True])))
 
 
 def _scalar(x, kind):
@@ -75,7 +75,16 @@ def check_vectorised(case):
     sc, ec = case["cfg"]
     pos = np.asarray(s["pos"], dtype=_dt(s["mode"]))
     neg = np.asarray(s["neg"], dtype=_dt(s["mode"]))
-    o = Scores(pos, neg, nb_easy_pos=s["ep"], nb_easy_neg=s["en"], score_class=sc, equal_class=ec)
+    cls = Scores
+    if case.get("subclass"):
+        # a user subclass that reports its rates in percent: every alias must follow the override
+        class PercentScores(Scores):
+            pass
+
+        for nm in METRICS:
+            setattr(PercentScores, nm, (lambda base: lambda self, threshold: 100.0 * base(self, threshold))(getattr(Scores, nm)))
+        cls = PercentScores
+    o = cls(pos, neg, nb_easy_pos=s["ep"], nb_easy_neg=s["en"], score_class=sc, equal_class=ec)
     X = tuple(case["thr"]["shape"])
     thr = gen.np_array(case["thr"]["flat"], X)
     if case.get("thr_dtype"):
@@ -343,6 +352,19 @@ def _run_step(o, step, init):
         res = list(o.eer())
     elif op == "auc":
         res = [o.auc(step["lims"][0], step["lims"][1], x_axis=step["x"], y_axis=step["y"])]
+    elif op == "failing_call":
+        # a call that fails (a metric name the object does not have, an unknown method): the
+        # exception is the caller's business, the state of the object is not
+        try:
+            if step["kind"] == "auc-axis":
+                o.auc(y_axis="ppv")
+            elif step["kind"] == "thr-method":
+                o.threshold_at_fpr(0.5, method="nearest")
+            else:
+                o.threshold_at_metric(0.5, "no_such_metric")
+        except Exception:  # noqa
+            pass
+        res = []
     elif op == "tam":
         pts = step["points"]
         r = o.threshold_at_metric(arr(step["tg"]), step["metric"], pts)
@@ -380,7 +402,7 @@ def _run_step(o, step, init):
 def _applicable(step, init):
     n, m = len(init["pos"]), len(init["neg"])
     op = step["op"]
-    if op in ("eer", "auc", "roc", "bootstrap_ci"):
+    if op in ("eer", "auc", "roc", "bootstrap_ci", "failing_call"):
         return n > 0 and m > 0
     if op == "thr":
         base = ALIAS_OF.get(step["m"], step["m"])
@@ -525,6 +547,10 @@ def make_machine(tier, on_history):
         @rule(m=st.sampled_from(THR_NAMES), method=st.sampled_from(METHODS), tg=_small_targets())
         def thr(self, m, method, tg):
             self.steps.append(dict(op="thr", m=m, method=method, tg=tg))
+
+        @rule(kind=st.sampled_from(["auc-axis", "thr-method", "tam-name"]))
+        def failing_call(self, kind):
+            self.steps.append(dict(op="failing_call", kind=kind))
 
         @rule()
         def eer(self):
